@@ -267,7 +267,15 @@ class PowerManagingActor(Actor):  # pylint: disable=too-many-instance-attributes
                     component_ids,
                     None,
                     self._calculate_shifted_bounds(
-                        self._system_bounds[component_ids], tgt_power_shift
+                        self._system_bounds[component_ids],
+                        # `None` means unchanged, so shift by the last target power.
+                        (
+                            tgt_power_shift
+                            if tgt_power_shift is not None
+                            else self._set_op_power_group.get_target_power(
+                                component_ids
+                            )
+                        ),
                     ),
                     must_send,
                 )
@@ -282,7 +290,15 @@ class PowerManagingActor(Actor):  # pylint: disable=too-many-instance-attributes
                     component_ids,
                     None,
                     self._calculate_shifted_bounds(
-                        self._system_bounds[component_ids], tgt_power_no_shift
+                        self._system_bounds[component_ids],
+                        # `None` means unchanged, so shift by the last target power.
+                        (
+                            tgt_power_no_shift
+                            if tgt_power_no_shift is not None
+                            else self._set_power_group.get_target_power(
+                                component_ids
+                            )
+                        ),
                     ),
                     must_send,
                 )
@@ -297,10 +313,24 @@ class PowerManagingActor(Actor):  # pylint: disable=too-many-instance-attributes
                 component_ids,
                 None,
                 self._calculate_shifted_bounds(
-                    self._system_bounds[component_ids], tgt_power_no_shift
+                    self._system_bounds[component_ids],
+                    # `None` means unchanged, so shift by the last target power.
+                    (
+                        tgt_power_no_shift
+                        if tgt_power_no_shift is not None
+                        else self._set_power_group.get_target_power(component_ids)
+                    ),
                 ),
                 must_send,
             )
+        if tgt_power_shift is None and tgt_power_no_shift is None:
+            return None
+        # A `None` here means the target power of that group didn't change, so its
+        # last target power is still part of the power to distribute.
+        if tgt_power_shift is None:
+            tgt_power_shift = self._set_op_power_group.get_target_power(component_ids)
+        if tgt_power_no_shift is None:
+            tgt_power_no_shift = self._set_power_group.get_target_power(component_ids)
         if tgt_power_shift is not None and tgt_power_no_shift is not None:
             return tgt_power_shift + tgt_power_no_shift
         if tgt_power_shift is not None:
